@@ -279,7 +279,7 @@ Section Init.
   Lemma xlcof_spec : 1 + theta E <> 0 ->
     G gen_sgp4_xlcof_v1 = (A30 * sin i0) / (8 * k2) * ((3 + 5 * theta E) / (1 + theta E)).
   Proof.
-    intros H. unfold gen_sgp4_xlcof_v1, gen_sgp4_sinIO. rewrite ?cosIO_spec, ?oe_incl, ?half_angle_1pcos.
+    intros H. unfold gen_sgp4_xlcof_v1, gen_sgp4_sinIO. rewrite ?cosIO_spec, ?oe_incl. half_angle i0.
     replace (cos i0) with (theta E) by reflexivity. unfold A30, k2.
     (sp; field). exact H.
   Qed.
